@@ -15,28 +15,34 @@
 (* effect at a silent step Lin between its invocation and its return.      *)
 (* The history is accepted iff some branch consumes every line; then the   *)
 (* invariant NotAccepted is violated (that is the success signal).         *)
+(* Lines "mb"/"me" mark the critical section of an incoming merge.         *)
 (***************************************************************************)
 EXTENDS Integers, Sequences, FiniteSets, TLC, Json, IOUtils
 
+\* "lin": search for linearization points, the merge marks are stepped over;
+\* "mutex": only the merge marks are checked (a deterministic pass: no search, so a rejection is immediate)
+CONSTANT Mode
+
 Trace == ndJsonDeserialize(IOEnv.VERIF_TRACE)
 \* the return record of every call id
-RetIdx == [i \in {Trace[j].id : j \in 1..Len(Trace)} |-> CHOOSE j \in 1..Len(Trace) : Trace[j].ev = "ret" /\ Trace[j].id = i]
+RetIdx == [i \in {Trace[j].id : j \in {x \in 1..Len(Trace) : Trace[x].ev = "inv"}} |-> CHOOSE j \in 1..Len(Trace) : Trace[j].ev = "ret" /\ Trace[j].id = i]
 Ret(i) == Trace[RetIdx[i]]
 
 VARIABLES ctr,     \* ctr[d] : counter of document d (function over the documents seen)
           keys,    \* set of created keys
           pend,    \* invoked, not yet linearized
           lind,    \* linearized, not yet returned
+          inmerge, \* documents whose incoming merge is inside its critical section (between the recorded mb and me marks)
           l
-vars == <<ctr, keys, pend, lind, l>>
+vars == <<ctr, keys, pend, lind, inmerge, l>>
 
 Docs == {Trace[j].d : j \in 1..Len(Trace)}
-Init == ctr = [d \in Docs |-> 0] /\ keys = {} /\ pend = {} /\ lind = {} /\ l = 1
+Init == ctr = [d \in Docs |-> 0] /\ keys = {} /\ pend = {} /\ lind = {} /\ inmerge = {} /\ l = 1
 
 Cur == Trace[l]
-Inv == /\ l <= Len(Trace) /\ Cur.ev = "inv" /\ pend' = pend \cup {Cur.id} /\ l' = l + 1 /\ UNCHANGED <<ctr, keys, lind>>
+Inv == /\ Mode = "lin" /\ l <= Len(Trace) /\ Cur.ev = "inv" /\ pend' = pend \cup {Cur.id} /\ l' = l + 1 /\ UNCHANGED <<ctr, keys, lind, inmerge>>
 \* the silent linearization step of a pending call, judged with the result the call returned
-Lin(i) == /\ i \in pend
+Lin(i) == /\ Mode = "lin" /\ i \in pend
           /\ LET r == Ret(i) IN
              /\ CASE r.op \in {"inc", "merge"} ->
                        (ctr' = (IF r.res = "ok" THEN [ctr EXCEPT ![r.d] = @ + r.k] ELSE ctr)) /\ (keys' = keys)
@@ -47,10 +53,19 @@ Lin(i) == /\ i \in pend
                   [] r.op = "exists" ->
                        (r.res = "ok" => ((r.val = 1) = (r.d \in keys))) /\ (ctr' = ctr) /\ (keys' = keys)
                   [] OTHER -> (ctr' = ctr) /\ (keys' = keys)
-          /\ pend' = pend \ {i} /\ lind' = lind \cup {i} /\ UNCHANGED l
-RetStep == /\ l <= Len(Trace) /\ Cur.ev = "ret" /\ Cur.id \in lind
-           /\ lind' = lind \ {Cur.id} /\ l' = l + 1 /\ UNCHANGED <<ctr, keys, pend>>
-Next == Inv \/ RetStep \/ \E i \in pend : Lin(i)
+          /\ pend' = pend \ {i} /\ lind' = lind \cup {i} /\ UNCHANGED <<l, inmerge>>
+RetStep == /\ Mode = "lin" /\ l <= Len(Trace) /\ Cur.ev = "ret" /\ Cur.id \in lind
+           /\ lind' = lind \ {Cur.id} /\ l' = l + 1 /\ UNCHANGED <<ctr, keys, pend, inmerge>>
+\* internal/db/messages.go: the merge queue admits one merge per document at a time. The marks are recorded by the real
+\* goroutine inside the critical section (hooks merge.begin / merge.end), so two of them never nest for one document.
+MBegin == /\ Mode = "mutex" /\ l <= Len(Trace) /\ Cur.ev = "mb" /\ Cur.d \notin inmerge
+          /\ inmerge' = inmerge \cup {Cur.d} /\ l' = l + 1 /\ UNCHANGED <<ctr, keys, pend, lind>>
+MEnd == /\ Mode = "mutex" /\ l <= Len(Trace) /\ Cur.ev = "me" /\ Cur.d \in inmerge
+        /\ inmerge' = inmerge \ {Cur.d} /\ l' = l + 1 /\ UNCHANGED <<ctr, keys, pend, lind>>
+\* lines that the mode does not look at
+Skip == /\ l <= Len(Trace) /\ l' = l + 1 /\ UNCHANGED <<ctr, keys, pend, lind, inmerge>>
+        /\ IF Mode = "lin" THEN Cur.ev \in {"mb", "me"} ELSE Cur.ev \in {"inv", "ret"}
+Next == Inv \/ RetStep \/ MBegin \/ MEnd \/ Skip \/ \E i \in pend : Lin(i)
 Spec == Init /\ [][Next]_vars
 \* success signal: some branch consumed the whole history
 NotAccepted == l <= Len(Trace)
